@@ -16,19 +16,29 @@ def _val(f):
         return ("exc", type(e).__name__)
 
 
-def observe(u, hashes=True):
-    out = []
-    for p in PROPS:
-        out.append((p, _val(lambda: getattr(u, p))))
-    out.append(("query", _val(lambda: list(u.query.items()))))
+def _plan(u, hashes=True):
+    plan = [(p, (lambda p=p: getattr(u, p))) for p in PROPS]
+    plan.append(("query", lambda: list(u.query.items())))
     for m in METHODS:
         if m == "__hash__" and not hashes:
             continue
-        out.append((m, _val(getattr(u, m))))
-    out.append(("parent", _val(lambda: str(u.parent))))
-    out.append(("origin", _val(lambda: str(u.origin()))))
-    out.append(("relative", _val(lambda: str(u.relative()))))
-    return out
+        plan.append((m, getattr(u, m)))
+    plan.append(("parent", lambda: str(u.parent)))
+    plan.append(("origin", lambda: str(u.origin())))
+    plan.append(("relative", lambda: str(u.relative())))
+    return plan
+
+
+def observe(u, hashes=True, reverse=False):
+    """Read everything, in the listed order (or in reverse: accessor values must not depend on the order of reading).
+    The result is always reported in the listed order."""
+    plan = _plan(u, hashes)
+    if not reverse:
+        return [(n, _val(f)) for n, f in plan]
+    got = {}
+    for n, f in reversed(plan):
+        got[n] = _val(f)
+    return [(n, got[n]) for n, _ in plan]
 
 
 def diff(a, b):
